@@ -1489,12 +1489,8 @@ var idClasses = []idclass{
 		}
 		return ""
 	}, [4]string{"slice-elem", "*[2]int", "[2]int", "complit"}, false},
-	{"variadic-argument-conversion-to-function-type-panics", func(c *icell, o typesOutcome) string {
-		if c.ctx == "variadic-arg" && c.form == "conv-funclit" && o.OK {
-			return mPanics
-		}
-		return ""
-	}, [4]string{"variadic-arg", "func(int) string", "N[func(int) string]", "conv-funclit"}, false},
+	// (variadic-argument-conversion-to-function-type-panics — context variadic-arg, form
+	// conv-funclit — is closed: cured by /repo 7757bd0; the form stays in the matrix, idForms)
 }
 
 // idActivate: a class explains failures only while its finding is open and its witness still
